@@ -46,7 +46,7 @@ import sys
 from fractions import Fraction
 
 from . import common
-from .common import coq_bool, coq_list, coq_nat, parse_eval_lists, shards
+from .common import time_limit, coq_bool, coq_list, coq_nat, parse_eval_lists, shards
 
 NAMES = ["meter", "centimeter", "foot", "inch"]
 # the property's constants: length of one unit in metres
@@ -97,7 +97,8 @@ def num_result(r):
 
 def call_convert(im, a, b, x):
     try:
-        r = im.units.convert(im.builtin[a], im.builtin[b], x)
+        with time_limit(5):
+            r = im.units.convert(im.builtin[a], im.builtin[b], x)
     except Exception as e:
         return ("exc", type(e).__name__)
     return num_result(r)
@@ -1079,7 +1080,8 @@ def call_forest(im, spec, a, b, x):
     log = []
     try:
         objs = build_forest(im, spec, log)
-        r = im.units.convert(objs[a], objs[b], x)
+        with time_limit(5):
+            r = im.units.convert(objs[a], objs[b], x)
     except Exception as e:
         return ("exc", type(e).__name__)
     if not isinstance(r, Fraction):
@@ -1226,7 +1228,8 @@ def call_reent(im, spec, a, b, x):
     log = []
     try:
         objs = build_reent(im, spec, log)
-        r = im.units.convert(objs[a], objs[b], x)
+        with time_limit(5):
+            r = im.units.convert(objs[a], objs[b], x)
     except Exception as e:
         return ("exc", type(e).__name__)
     if not isinstance(r, Fraction):
